@@ -38,7 +38,7 @@ def shard_cms(sh, part):
     from outrank.algorithms.sketches.counting_cms import CountMinSketch
     np.random.seed((sh.seed * 1000003 + part) % (2 ** 32))
     rng = sh.rng('cms', part)
-    reps = 50 if sh.tier == 'quick' else 250
+    reps = 50 if sh.tier == 'quick' else 1500
     widths = [1, 2, 3, 7, 64, 997, 1000, 1024, 12345, 2 ** 15]
     for t in range(reps):
         ktype = rng.choice(['int', 'str'])
@@ -102,7 +102,7 @@ def verify_cms(sh, sk, keys, ktype):
 def shard_counter(sh, part):
     from outrank.algorithms.sketches.counting_counters_ordinary import PrimitiveConstrainedCounter
     rng = sh.rng('counter', part)
-    reps = 300 if sh.tier == 'quick' else 1500
+    reps = 300 if sh.tier == 'quick' else 8000
     for t in range(reps):
         nk = rng.choice([1, 2, 3, 5, 12, 60])
         keys = rng.sample(STR_KEYS + ['k%d' % i for i in range(80)] + INT_KEYS, nk)
